@@ -346,11 +346,11 @@ func extractTimeout(headers http.Header, protocol conformancev1.Protocol, feedba
 		}
 		headers.Del(connectTimeoutHeader)
 		intVal, err := strconv.ParseInt(val, 10, 64)
-		if err != nil || intVal < 0 {
+		if err != nil || intVal < 0 || val[0] == '+' || val[0] == '-' { // digits only: no sign
 			feedback.Printf("invalid numeric value for %q header: %q", connectTimeoutHeader, val)
 			break
 		}
-		if intVal > 9999999999 { // 10 digit max
+		if intVal > 9999999999 || len(val) > 10 { // 10 digit max
 			feedback.Printf("invalid numeric value (>10 digits) in %q header: %q", connectTimeoutHeader, val)
 			break
 		}
@@ -376,11 +376,11 @@ func extractTimeout(headers http.Header, protocol conformancev1.Protocol, feedba
 			break
 		}
 		intVal, err := strconv.ParseInt(timeoutStr, 10, 64)
-		if err != nil || intVal < 0 {
+		if err != nil || intVal < 0 || timeoutStr[0] == '+' || timeoutStr[0] == '-' { // digits only: no sign
 			feedback.Printf("invalid numeric value in %q header: %q", grpcTimeoutHeader, val)
 			break
 		}
-		if intVal > 99999999 { // 8 digit max
+		if intVal > 99999999 || len(timeoutStr) > 8 { // 8 digit max
 			feedback.Printf("invalid numeric value (>8 digits) in %q header: %q", grpcTimeoutHeader, val)
 			break
 		}
